@@ -84,7 +84,12 @@ impl<'o, T: Clone + 'static> ObservableVectorTransaction<'o, T> {
 
         self.values.clear();
         self.batch.clear(); // All previous batched updates are irrelevant now
-        self.add_to_batch(VectorDiff::Clear);
+
+        // Subscribers are at the state from before the transaction: if that is
+        // empty already, there is nothing to clear for them.
+        if !self.inner.values.is_empty() {
+            self.add_to_batch(VectorDiff::Clear);
+        }
     }
 
     /// Add an element at the front of the list and notify subscribers.
